@@ -213,11 +213,26 @@ def build_inputs(case):
     return L, R, cv
 
 
+_AGG = {}
+
+
 def aggregator(case):
+    """One aggregation object per (distance, intensity), REUSED by every later case with the same parameters, as an
+    API user may do; each new object is first run once on a 3x4 pair (smaller than most distances), so that a
+    parameter or buffer that the object keeps from one call to the next shows in the comparison with the
+    (stateless) model on the following cases.  Deterministic, hence identical under --replay."""
     from pandora import aggregation
 
-    return aggregation.AbstractAggregation(aggregation_method="cbca", cbca_intensity=float(F(*case["intensity"])),
-                                           cbca_distance=case["distance"])
+    key = (case["distance"], tuple(case["intensity"]))
+    if key not in _AGG:
+        agg = aggregation.AbstractAggregation(aggregation_method="cbca", cbca_intensity=float(F(*case["intensity"])),
+                                              cbca_distance=case["distance"])
+        warm = dict(nr=3, nc=4, left=[[1, 2, 3, 4]] * 3, right=[[1, 2, 3, 4]] * 3, mask_left=None, mask_right=None,
+                    valid=0, nodata=1, method="sad", window=1, subpix=1, dmin=0, dmax=0)
+        L, R, cv = build_inputs(warm)
+        agg.cost_volume_aggregation(L, R, cv)
+        _AGG[key] = agg
+    return _AGG[key]
 
 
 def rows_q(a):
@@ -369,7 +384,7 @@ def prepare(ctx, case):
         return None
     finite = before[np.isfinite(before)]
     cmax = float(np.abs(finite).max()) if finite.size else 0.0
-    if cmax * 4 * nr * (2 * case["distance"] + 1) >= 2 ** 24:
+    if cmax * 4 * nr * (2 * min(case["distance"], max(nr, nc)) + 1) >= 2 ** 24:
         ctx.count("skipped_sums_not_exact_in_float32")
         return None
     case["_built"] = (L, R, cv, before, disps, off, shifted)
@@ -416,6 +431,10 @@ def run(ctx):
                 force = {"distance": 6, "window": 1, "method": "sad"}
             elif i % 10 == 1:
                 force = {"distance": 1}
+            elif i % 50 == 2:
+                # "every cbca_distance >= 1": far beyond the image, around the int16 / int32 limits
+                force = {"distance": rng.choice([300, 32767, 32768, 40000, 65536, 70000, 2 ** 31 - 1]),
+                         "window": 1, "method": "sad"}
             cases.append(gen_case(rng, force))
     batch = 50
     for start in range(0, len(cases), batch):
